@@ -100,18 +100,26 @@ class C14(Check):
             for t in itertools.product(STR_ALPHA, repeat=ln):
                 s = bytes(t)
                 self.check_string(s, ctx)
-        ctx.sample({"string": "AcgTNyR-"})
+        # long inputs: lengths around powers of two (block sizes hidden in an implementation)
+        unit = b"ACGTRYKMacgtnNBDHV-x"
+        for k in range(8, 19):
+            for d in (-1, 0, 1):
+                n = (1 << k) + d
+                self.check_string((unit * (n // len(unit) + 1))[:n], ctx, label=f"len{n}")
+        for n in (3 << 16, 196_609, 250_000):
+            self.check_string((unit * (n // len(unit) + 1))[:n], ctx, label=f"len{n}")
+        ctx.sample({"string": "AcgTNyR-", "long": "lengths 2^k-1, 2^k, 2^k+1 for k=8..18, 3*2^16, 250000"})
 
-    def check_string(self, s, ctx):
-        case = ["string", s.decode("latin1")]
+    def check_string(self, s, ctx, label=None):
+        case = ["string", s.decode("latin1")] if label is None else ["longstring", len(s)]
         ctx.cur = case
         ctx.evaluations += 1
         ctx.nontrivial += 1
         rc = simple.reverse_complement(s)
         if simple.reverse_complement(rc) != s:
-            ctx.violation("revcomp-not-involution", case, f"{s!r} -> {rc!r} -> {simple.reverse_complement(rc)!r}")
+            ctx.violation("revcomp-not-involution", case, f"length {len(s)}: twice-reversed length {len(simple.reverse_complement(rc))}; {s[:40]!r} -> {rc[:40]!r}")
         if rc != fm.ref_revcomp(s):
-            ctx.violation("revcomp-ne-reference", case, f"{rc!r} != {fm.ref_revcomp(s)!r}")
+            ctx.violation("revcomp-ne-reference", case, f"length {len(s)} -> {len(rc)}: {rc[:40]!r} != {fm.ref_revcomp(s)[:40]!r}")
         via_io = simple.revcomp_bytes_io(io.BytesIO(s)).getvalue()
         if via_io != rc:
             ctx.violation("revcomp_bytes_io", case, f"{via_io!r}")
@@ -247,6 +255,10 @@ class C14(Check):
             self.check_table(0, ctx)
         elif kind == "string":
             self.check_string(case[1].encode("latin1"), ctx)
+        elif kind == "longstring":
+            unit = b"ACGTRYKMacgtnNBDHV-x"
+            n = case[1]
+            self.check_string((unit * (n // len(unit) + 1))[:n], ctx, label=f"len{n}")
         elif kind == "scaffold":
             self.check_scaffold([tuple(tuple(x) if isinstance(x, list) else x for x in r) for r in case[1]], ctx)
         elif kind == "stream":
